@@ -225,7 +225,52 @@ class _O:
         self.__dict__.update(kw)
 
 
-FUNCS = {"nhcwb16_shapes": nhcwb16_shapes, "footprint": footprint, "mem_limits": mem_limits, "rolling": rolling, "regions": regions}
+def fm_in_tensor(V, tshape, opshape, transpose, elem):
+    """create_feature_map: every element of the operation's box, addressed with the strides and tiles the feature map gets, lies
+    inside the tensor's allocation [address, address + storage_size) - also for the OFM of a TRANSPOSE, which is iterated in IFM
+    coordinates with swapped H/W strides, and for tensors whose own shape folds the dimensions differently from the operation shape."""
+    import ethosu.vela.high_level_command_to_npu_op as h2n
+    import ethosu.vela.tensor as tm
+    import ethosu.vela.numeric_util as nu
+    from ethosu.vela.tensor import Tensor, TensorFormat, TensorPurpose, MemArea, MemType, TensorAddressMap
+    from ethosu.vela.data_type import DataType
+    from ethosu.vela.shape4d import Shape4D
+    from ethosu.vela.high_level_command_stream import Box
+    from ethosu.vela.operation import Op
+
+    arch = _arch()
+    t = Tensor(list(tshape), DataType.int8 if elem == 1 else DataType.int16, "fm")
+    t.purpose = TensorPurpose.FeatureMap
+    t.mem_area, t.mem_type = MemArea.Sram, MemType.Scratch
+    t.force_linear_format = True
+    t.set_format(TensorFormat.NHWC, arch)
+    t.ops = [_O(original_type=Op.Transpose if transpose else Op.Conv2DBias)]
+    TensorAddressMap.address_map[t.equivalence_id].pop(t.mem_type, None)
+    base = V.int("address", 0, 1 << 30)
+    V.assume(L(base) % 16 == 0)
+    op_shape = Shape4D(*opshape)
+    y = V.int("y", 0, op_shape.height - 1)
+    x = V.int("x", 0, op_shape.width - 1)
+    c = V.int("c", 0, op_shape.depth - 1)
+    with core.shims((tm, {"min": core.smin, "max": core.smax, "int": core.IntShim}), (nu, {"int": core.IntShim}), (h2n, {"int": core.IntShim})):
+        t.address = base
+        fm = h2n.create_feature_map(t, Box([0, 0, 0, 0], list(opshape)), arch, op_shape, [0, 0, 0, 0], None, True)
+        size = t.storage_size()
+    TensorAddressMap.address_map[t.equivalence_id].pop(t.mem_type, None)
+    addr = L(fm.tiles.addresses[0]) + L(y) * L(fm.strides.height) + L(x) * L(fm.strides.width) + L(c) * elem
+    return [("single tile covering the box", z3.And(L(fm.tiles.height_0) >= op_shape.height, L(fm.tiles.width_0) >= op_shape.width)),
+            ("every addressed element lies inside the tensor's allocation", z3.And(addr >= L(base), addr + elem <= L(base) + L(size)))]
+
+
+def lr_rolling(V, **params):
+    """bytes reserved for a cascade's rolling buffer == bytes the scheduler budgets == elements x element size of the stored data
+    (the same lemma as C03 lr_rolling: an under-sized reservation lets accesses leave the published arena)"""
+    from harness import c03
+
+    return c03.lr_rolling(V, **params)
+
+
+FUNCS = {"fm_in_tensor": fm_in_tensor, "lr_rolling": lr_rolling, "nhcwb16_shapes": nhcwb16_shapes, "footprint": footprint, "mem_limits": mem_limits, "rolling": rolling, "regions": regions}
 
 
 def instances(tier, seed):
@@ -246,6 +291,15 @@ def instances(tier, seed):
                     out.append(dict(key="rolling/B%d_w%d_d%d_%s" % (B_h, width, depth, fmt), fn="rolling", params=dict(B_h=B_h, width=width, depth=depth, fmt=fmt)))
     for accel in ("Ethos_U55_128", "Ethos_U65_256"):
         out.append(dict(key="regions/%s" % accel, fn="regions", params=dict(accel=accel)))
+    fm_cases = [([1, 4, 6, 16], [1, 4, 6, 16], 0), ([1, 6, 4, 16], [1, 4, 6, 16], 1), ([16, 8], [1, 8, 16, 1], 1), ([1, 16, 8], [1, 8, 16, 1], 1), ([8, 1, 16], [1, 16, 1, 8], 1),
+                ([1, 1, 16, 8], [1, 8, 16, 1], 1), ([1, 16, 1, 8], [1, 8, 1, 16], 1), ([24, 5], [1, 1, 24, 5], 0), ([3, 5, 7], [1, 3, 5, 7], 0)]
+    for tshape, opshape, tr in fm_cases:
+        for elem in (1, 2):
+            out.append(dict(key="fm_in_tensor/t%s/op%s/%s/e%d" % ("x".join(map(str, tshape)), "x".join(map(str, opshape)), "transpose" if tr else "plain", elem),
+                            fn="fm_in_tensor", params=dict(tshape=tshape, opshape=opshape, transpose=tr, elem=elem)))
+    for cin in (1, 3):
+        for md, od in (("int16", "int8"), ("int8", "int16")):
+            out.append(dict(key="lr_rolling/cin%d/%s_%s" % (cin, md, od), fn="lr_rolling", params=dict(cin=cin, mid_dtype=md, out_dtype=od)))
     for nprod, ncons in ((1, 1), (1, 2), (2, 1), (1, 0)):
         out.append(dict(key="nhcwb16_shapes/p%d_c%d" % (nprod, ncons), fn="nhcwb16_shapes", params=dict(nprod=nprod, ncons=ncons)))
     return out
